@@ -207,7 +207,7 @@ class RefExec:
                     out = ("value", None, out[2])
             if self.s.custom_default_resolver:
                 self.res.default_calls.append(("default:%s.%s" % (T, f.name), pid, canon(args)))
-        if out[0] in ("raise", "raise_tf"):
+        if out[0] in ("raise", "raise_tf", "raise_shared"):
             self.fail(path, out[0], nodes, out[2])
         return self.complete(f.type, out[1], path, nodes, T, f)
 
